@@ -13,8 +13,8 @@ Definition in_bases (i : term) : list profile := map profile_of (gl (gn i 2)).
 (* ---- encoding of the observable (must match harness/cmd/c07.go c07DumpMerged / top) ---- *)
 Definition of_frames (p : profile) (s : sample) : term :=
   TL (map (fun id => match find_location p id with
-                     | Some l => TL [TZ (l_addr l); of_ss (loc_names p id)]
-                     | None => TL [TZ 0; TL []]
+                     | Some l => TL [TZ (l_addr l); of_ss (loc_names p id); of_ss (loc_files p id)]
+                     | None => TL [TZ 0; TL []; TL []]
                      end) (s_loc s)).
 
 Definition of_merged_sample (p : profile) (s : sample) : term :=
